@@ -31,7 +31,7 @@ CONSTANTS Input,      \* receiver -> sequence of [fr |-> Beast frame, dec |-> BO
           Skew,       \* assumption (ii)
           SecMs,      \* ms per "second" of the table's first/last (1000 in reality)
           TMax,       \* last clock value
-          DMutant,    \* "none" | "table_after_filter" | "no_filter" | "no_skew_bound" | "print_first_only"
+          DMutant,    \* "none" | "table_after_filter" | "no_filter" | "no_skew_bound" | "print_first_only" | "members_sorted"
           DedupMutant \* Mutant of Dedup.tla
 
 VARIABLES ppos, pbuf, pat, pclock, ppend, pnext, precs, ptab, pw, pcfg, pchk, pwire, pends,
@@ -82,7 +82,7 @@ DedupArrive(r) ==
      /\ DMutant # "no_skew_bound" =>
           \A r2 \in RX \ {r} : ppend[r2] # <<>> => y.t < Head(ppend[r2]).t + Skew
      /\ D!Insert([id |-> Len(dhist) + 1, f |-> Payload(y.fr), t |-> y.t,
-                  rx |-> [rx |-> r, id |-> IdOf(y.fr), t |-> y.t]])
+                  rx |-> [rx |-> r, id |-> IdOf(y.fr), t |-> y.t, tu |-> y.t]])
   /\ ppend' = [ppend EXCEPT ![r] = Tail(@)] /\ pchk' = FALSE
   /\ UNCHANGED <<ppos, pbuf, pat, pclock, pnext, precs, ptab, pcfg, pwire, pends>>
 
@@ -96,8 +96,12 @@ PrintRec ==
          a == AddrOf(pay)
          sec == o.t \div SecMs
          keep == DMutant = "no_filter" \/ KeepPayload(pcfg, pay)
-         mem == [j \in DOMAIN o.m |-> o.m[j][2]]
-         rec == [frame |-> pay, t |-> o.t, ts |-> sec, df |-> ShownDF(pay), icao |-> a, seen |-> pclock,
+         mem0 == [j \in DOMAIN o.m |-> o.m[j][2]]
+         (* mutant: the receptions re-ordered in place, highest receiver first (stable) *)
+         mem == IF DMutant = "members_sorted"
+                THEN SelectSeq(mem0, LAMBDA x : x.rx = 2) \o SelectSeq(mem0, LAMBDA x : x.rx # 2)
+                ELSE mem0
+         rec == [frame |-> pay, t |-> o.t, tu |-> o.t, ts |-> sec, df |-> ShownDF(pay), icao |-> a, seen |-> pclock,
                  m |-> IF DMutant = "print_first_only" THEN <<mem[1]>> ELSE mem]
          counted == DMutant # "table_after_filter" \/ keep
      IN /\ precs' = IF keep THEN Append(precs, rec) ELSE precs
